@@ -1052,6 +1052,11 @@ fn main() {
                         println!("step{}={}", n, if r.is_ok() { "ok" } else { "err" });
                     }
                     "F" => println!("step{}={}", n, if d.flush_for_verif() { "ok" } else { "err" }),
+                    // A : audit of the table layout against the table files (bounds = first / last stored entry, order, disjointness)
+                    "A" => {
+                        let p = d.layout_audit_for_verif();
+                        println!("step{}=audit:{}", n, if p.is_empty() { "ok".to_string() } else { p.join(" ; ").replace('=', ":") });
+                    }
                     "S" => {
                         snaps.push(d.get_snapshot());
                         println!("step{}=ok", n);
@@ -2456,6 +2461,55 @@ fn main() {
             println!("cases={}", cases);
             println!("mismatches={}", bad);
             println!("first_mismatch={}", first);
+        }
+        // compact_unreadable_input_all_dropped : keys a, b, c in a deep table, a table with only a tombstone for b above it; the deep table
+        // becomes unreadable (footer altered, reopen = cold caches); the whole range is compacted: everything the merge can still read is
+        // dropped, so no output is open when it ends. a and c must not be lost.
+        "compact_unreadable_input_all_dropped" => {
+            use raindb::{ReadOptions, WriteOptions};
+            let mut o = raindb::DbOptions::with_memory_env();
+            o.db_path = "db".to_string();
+            o.create_if_missing = true;
+            let want: Vec<(Vec<u8>, Vec<u8>)> = vec![(b"a".to_vec(), b"va".to_vec()), (b"c".to_vec(), b"vc".to_vec())];
+            {
+                let db = raindb::DB::open(o.clone()).expect("open");
+                for k in [b"a", b"b", b"c"] {
+                    db.put(WriteOptions::default(), k.to_vec(), [b"v".as_slice(), k.as_slice()].concat()).unwrap();
+                }
+                let _ = db.flush_for_verif();
+                db.delete(WriteOptions::default(), b"b".to_vec()).unwrap();
+                let _ = db.flush_for_verif();
+                println!("levels_before={}", db.get_descriptor(raindb::db::DatabaseDescriptor::SSTables).map(|d| format!("{:?}", d).chars().filter(|c| !c.is_whitespace()).take(200).collect::<String>()).unwrap_or_default());
+            }
+            let nums = v::table_numbers(&o);
+            println!("tables_before={}", join(&nums));
+            if nums.len() != 2 {
+                println!("lost=0");
+                println!("setup=failed");
+                return;
+            }
+            println!("fault_hit={}", v::flip_table_byte(&o, nums[0], usize::MAX));
+            match raindb::DB::open(o.clone()) {
+                Err(e) => {
+                    println!("lost=0");
+                    println!("compact=OpenErr({:?})", e);
+                }
+                Ok(db) => {
+                    db.compact_range(None..None);
+                    let (mut lost, mut errors) = (0usize, 0usize);
+                    for (k, val) in &want {
+                        match db.get(ReadOptions::default(), k) {
+                            Ok(got) if &got == val => {}
+                            Err(raindb::errors::RainDBError::KeyNotFound) | Ok(_) => lost += 1,
+                            Err(_) => errors += 1,
+                        }
+                    }
+                    println!("keys={}", want.len());
+                    println!("lost={}", lost);
+                    println!("read_errors={}", errors);
+                    println!("tables_after={}", join(&v::table_numbers(&o)));
+                }
+            }
         }
         // cache_ids : eight threads draw 50000 block-cache ids each from the default block cache; ids must be unique
         "cache_ids" => {
